@@ -136,26 +136,20 @@ class Language(object):
         """
         assert t in self.canon, f"{t} is not canonical"
 
-        for s in t.successors(d,
-                include_top=self.include_top,
-                include_bottom=self.include_bottom,
-                universe=self.types.values()):
-            if s in self.canon:
+        def below(a: TypeOperation, b: TypeOperation) -> bool:
+            "Is `a` strictly past `b` when travelling in direction `d`?"
+            lo, hi = (a, b) if d is Direction.DOWN else (b, a)
+            return bool(lo.is_subtype(hi, strict=True))
+
+        # The canonical types are not closed under the one-step successors of
+        # `TypeOperation.successors` (e.g. with `F(B)` canonical, `F(Top)` is
+        # canonical but `F(A)` is not), so the taxonomy is read off the
+        # subtype order on the canonical types itself: a direct successor is
+        # one with no other canonical type in between.
+        related = [s for s in self.canon if below(s, t)]
+        for s in related:
+            if transitive or not any(below(s, u) for u in related):
                 yield s
-                if transitive:
-                    yield from self.successors(d, s, True)
-            # It might be the case that a type that is noncanonical has a
-            # canonical supertype, e.g. A is a supertype of B, with F(B)
-            # canonical, then F(Top) is canonical but F(A) is not
-            else:
-                for u in s.successors(d,
-                        include_top=self.include_top,
-                        include_bottom=self.include_bottom,
-                        universe=self.types.values()):
-                    if u in self.canon:
-                        yield u
-                        if transitive:
-                            yield from self.successors(d, u, True)
 
     def subtypes(self, t: TypeOperation,
             transitive: bool = False) -> Iterator[TypeOperation]:
